@@ -26,7 +26,7 @@ BOUNDS = {
 OUTSIDE = 'byte-level YAML is produced and parsed by the real PyYAML on concrete values (values are chosen by solver integers from a finite ' \
           'catalogue, not symbolic reals); default runs at N >= 6 (the default sd rule with 1000 iterations is not bounded)'
 ASSUMPTIONS = ['ensemble variants: np.random concretised to a seeded stream, re-seeded before each of the compared runs', 'Pool inline']
-REQUIRED_CLASSES = ['keypath:nested-set', 'keypath:delete', 'keypath:too-deep', 'keypath:missing', 'yaml:tuple-edit', 'yaml:array-edit']
+REQUIRED_CLASSES = ['keypath:nested-set', 'keypath:delete', 'keypath:too-deep', 'keypath:missing', 'yaml:tuple-edit', 'yaml:array-edit', 'yaml:runnable-preset', 'yaml:preset-sifted-with-envelopes']
 EXPECTED_LABELS = ['default-config-reproduces-plain-call', 'stage-options-identical', 'keypath-equals-nested-indexing', 'untouched-entries-unchanged',
                    'yaml-text-roundtrip', 'yaml-file-roundtrip', 'export-does-not-modify-config', 'reloaded-callable-equivalent']
 BUDGET_S = {'quick': 150, 'thorough': 900}
@@ -46,7 +46,19 @@ def configs(tier):
         out.append(('keypaths-sift-d3', {'kind': 'keypaths', 'variant': 'sift', 'depth': 3}))
     for v in (('sift', 'mask_sift') if q else VARIANTS):
         out.append(('yaml-%s' % v, {'kind': 'yaml', 'variant': v, 'edits': 1 if q else 2, 'N': 5}))
+    # runnable non-default option sets whose tuples come back from YAML as lists: the reloaded callable must still behave the same
+    for name in (('rilling',) if q else ('rilling', 'rilling-triple', 'fixed-pchip')):
+        out.append(('yaml-sift-preset-%s' % name, {'kind': 'yaml', 'variant': 'sift', 'edits': 0, 'N': 6, 'preset': name,
+                                                   '_budget_s': 40 if q else 200}))
     return out
+
+
+PRESETS = {
+    'rilling': [('imf_opts/stop_method', 'rilling'), ('max_imfs', 2)],
+    'rilling-triple': [('imf_opts/stop_method', 'rilling'), ('imf_opts/rilling_thresh', (0.1, 0.6, 0.3)), ('max_imfs', 2)],
+    'fixed-pchip': [('imf_opts/stop_method', 'fixed'), ('imf_opts/max_iters', 2), ('envelope_opts/interp_method', 'pchip'),
+                    ('extrema_opts/pad_width', 1), ('max_imfs', 2)],
+}
 
 
 # ------------------------------------------------------------------------------------------------ helpers
@@ -330,6 +342,11 @@ def yaml_rt(h):
         if name == 'array':
             h.note('yaml:array-edit')
         cfg['/'.join(leaves[ki])] = copy.deepcopy(val)
+    preset = h.params.get('preset')
+    if preset:
+        for k, v in PRESETS[preset]:
+            cfg[k] = copy.deepcopy(v)
+        h.note('yaml:runnable-preset')
     snapshot = copy.deepcopy(cfg.store)
     stype = cfg.sift_type
     try:
@@ -370,11 +387,13 @@ def yaml_rt(h):
         if b is None or not isinstance(b.store, dict):
             continue
         try:
-            with common.trace_sift(max_gni=400, max_env=3000):
+            with common.rilling_model(h, enabled=bool(preset) and preset.startswith('rilling')), common.trace_sift(max_gni=400, max_env=3000) as _tr:
                 seed(h)
                 o1 = cfg.get_func()(X)
                 seed(h)
                 o2 = b.get_func()(X)
+            if preset and any(ev[0] == 'env' and not ev[1] for ev in _tr.events):
+                h.note('yaml:preset-sifted-with-envelopes')      # the stopping rule / interpolation options were really exercised
             o1 = np.asarray(o1[0] if isinstance(o1, tuple) else o1)
             o2 = np.asarray(o2[0] if isinstance(o2, tuple) else o2)
             h.check(o1.shape == o2.shape, 'reloaded-callable-equivalent', (nm, o1.shape, o2.shape))
